@@ -5,6 +5,7 @@
 package asset
 
 import (
+	"sync"
 	"time"
 
 	"github.com/cinar/indicator/v2/helper"
@@ -13,6 +14,10 @@ import (
 // InMemoryRepository stores and retrieves asset snapshots using
 // an in memory storage.
 type InMemoryRepository struct {
+	// mutex guards the storage, as repositories are used by
+	// several workers at the same time.
+	mutex sync.RWMutex
+
 	// storage is the in memory storage for assets.
 	storage map[string][]*Snapshot
 }
@@ -26,6 +31,9 @@ func NewInMemoryRepository() *InMemoryRepository {
 
 // Assets returns the names of all assets in the repository.
 func (r *InMemoryRepository) Assets() ([]string, error) {
+	r.mutex.RLock()
+	defer r.mutex.RUnlock()
+
 	assets := make([]string, 0, len(r.storage))
 	for name := range r.storage {
 		assets = append(assets, name)
@@ -36,6 +44,9 @@ func (r *InMemoryRepository) Assets() ([]string, error) {
 
 // Get attempts to return a channel of snapshots for the asset with the given name.
 func (r *InMemoryRepository) Get(name string) (<-chan *Snapshot, error) {
+	r.mutex.RLock()
+	defer r.mutex.RUnlock()
+
 	snapshots, ok := r.storage[name]
 	if !ok {
 		return nil, ErrRepositoryAssetNotFound
@@ -77,13 +88,12 @@ func (r *InMemoryRepository) LastDate(name string) (time.Time, error) {
 
 // Append adds the given snapshows to the asset with the given name.
 func (r *InMemoryRepository) Append(name string, snapshots <-chan *Snapshot) error {
-	combined := r.storage[name]
+	appended := helper.ChanToSlice(snapshots)
 
-	for snapshot := range snapshots {
-		combined = append(combined, snapshot)
-	}
+	r.mutex.Lock()
+	defer r.mutex.Unlock()
 
-	r.storage[name] = combined
+	r.storage[name] = append(r.storage[name], appended...)
 
 	return nil
 }
